@@ -361,7 +361,7 @@ def run_idem(case):
                     sysd["oq"], rho0, process_tensor=pt,
                     progress_type="silent").states)
                 dev = float(np.abs(dyn - ref_dyn).max())
-                if dev > 1e-10:
+                if dev > 1e-6:     # separate PT-TEMPO runs: truncation level
                     violations.append({
                         "what": f"PtTempo after {ops}: dynamics differ from "
                                 f"a single computation by {dev:.3e}",
